@@ -5,7 +5,7 @@
    every flag combination, every evaluation result at every expression site,
    every cluster content (absent / present, matching or not, owner-reffed or
    not — [s_live], [s_match], owner data are arbitrary). *)
-From Koreo Require Import Json Payload ResourceFn ResourceFn_proofs.
+From Koreo Require Import Json Payload ResourceFn ResourceFn_proofs RfFaults RfFaults_proofs.
 Local Open Scope list_scope.
 
 (* "A readonly ResourceFunction never creates or patches" *)
@@ -79,6 +79,82 @@ Theorem C07_at_most_one_mutation : forall s,
   (List.length (filter is_mutation (calls_of s)) <= 1)%nat.
 Proof. exact at_most_one_mutation. Qed.
 
+(* ---------- the same bounds under EVERY answer of the API ("crossed with every cluster
+   situation": the object may vanish or appear between the read and the write, the read or the
+   write may fail).  [reconcile_krm_f s a_get a_mut] (model/RfFaults.v) is the pass in which the
+   read is answered a_get and the single write a_mut; AOk AOk is the fault-free pass. ---------- *)
+
+Theorem C07_faultfree_is_a_special_case : forall s,
+  reconcile_rf_f s AOk AOk = reconcile_rf s.
+Proof. exact faultfree_rf. Qed.
+
+Theorem C07f_readonly_never_creates_or_patches : forall s ag am,
+  c_readonly (s_cfg s) = true ->
+  existsb is_post (calls_f s ag am) = false /\ existsb is_patch (calls_f s ag am) = false.
+Proof. exact f_readonly_no_create_no_patch. Qed.
+
+Theorem C07f_readonly_no_mutation : forall s ag am,
+  c_readonly (s_cfg s) = true -> c_delete_if_exists (s_cfg s) = false ->
+  filter is_mutation (calls_f s ag am) = [].
+Proof. exact f_readonly_no_mutation_unless_die. Qed.
+
+Theorem C07f_create_disabled_never_creates : forall s ag am,
+  c_create_enabled (s_cfg s) = false -> existsb is_post (calls_f s ag am) = false.
+Proof. exact f_create_disabled_no_post. Qed.
+
+Theorem C07f_never_policy : forall s ag am,
+  c_update (s_cfg s) = UNever -> c_delete_if_exists (s_cfg s) = false ->
+  existsb is_patch (calls_f s ag am) = false /\ existsb is_delete (calls_f s ag am) = false.
+Proof. exact f_never_no_patch_no_delete. Qed.
+
+Theorem C07f_patch_policy_never_deletes : forall s ag am d,
+  c_update (s_cfg s) = UPatch d -> c_delete_if_exists (s_cfg s) = false ->
+  existsb is_delete (calls_f s ag am) = false.
+Proof. exact f_patch_policy_no_delete. Qed.
+
+Theorem C07f_recreate_policy_never_patches : forall s ag am d,
+  c_update (s_cfg s) = URecreate d -> existsb is_patch (calls_f s ag am) = false.
+Proof. exact f_recreate_policy_no_patch. Qed.
+
+(* in particular: a delete answered "not found" is not followed by a create *)
+Theorem C07f_delete_if_exists_only_deletes : forall s ag am,
+  c_delete_if_exists (s_cfg s) = true ->
+  existsb is_post (calls_f s ag am) = false /\ existsb is_patch (calls_f s ag am) = false.
+Proof. exact f_delete_if_exists_only_deletes. Qed.
+
+(* no second mutating call after a failed one *)
+Theorem C07f_at_most_one_mutation : forall s ag am,
+  (List.length (filter is_mutation (calls_f s ag am)) <= 1)%nat.
+Proof. exact f_at_most_one_mutation. Qed.
+
+(* absent — or reported absent by the read — and readonly / may not create: no mutating call,
+   Retry (waiting), never an object or a value *)
+Theorem C07f_absent_cannot_create_waits : forall s ag am,
+  s_live (seen s ag) = None -> c_delete_if_exists (s_cfg s) = false ->
+  c_readonly (s_cfg s) || negb (c_create_enabled (s_cfg s)) = true ->
+  filter is_mutation (calls_f s ag am) = [] /\
+  exists st, fst (reconcile_krm_f s ag am) = KStop st /\
+             match st with
+             | StopRetry d _ => d = DEFAULT_LOAD_RETRY_DELAY
+             | StopPermFail _ => calls_f s ag am = []
+             | _ => False
+             end.
+Proof. exact f_absent_cannot_create. Qed.
+
+Theorem C07f_precondition_stop_no_calls : forall s st ag am,
+  s_pre s = Some st -> reconcile_rf_f s ag am = (FStop st, []).
+Proof. exact f_precondition_stop_no_calls. Qed.
+
+Theorem C07f_function_calls_are_krm_calls : forall s ag am,
+  snd (reconcile_rf_f s ag am) = [] \/ snd (reconcile_rf_f s ag am) = calls_f s ag am.
+Proof. exact f_rf_calls_sub. Qed.
+
+(* a write that failed is never reported as success (no fabricated value) *)
+Theorem C07f_failed_write_is_not_ok : forall s ag am,
+  am <> AOk -> filter is_mutation (calls_f s ag am) <> [] ->
+  match fst (reconcile_krm_f s ag am) with KObj _ => False | _ => True end.
+Proof. exact f_failed_write_is_not_ok. Qed.
+
 (* non-vacuity: a concrete scenario that patches, one that is readonly *)
 Definition ex_cfg (ro : bool) : cfg :=
   {| c_version := "v1"; c_kind := "Widget"; c_plural := Some "widgets"; c_namespaced := true;
@@ -96,6 +172,25 @@ Example C07_nonvacuous :
   calls_of (ex_scenario true) = [CGet "widgets" (Some "ns") "w"].
 Proof. vm_compute. split; reflexivity. Qed.
 
+(* non-vacuity of the faulted statements: a delete-if-exists function whose DELETE is answered
+   "not found" raises and creates nothing; a create answered 409 waits *)
+Definition ex_die : scenario :=
+  let s := ex_scenario false in
+  {| s_cfg := {| c_version := "v1"; c_kind := "Widget"; c_plural := Some "widgets"; c_namespaced := true;
+                 c_owned := false; c_readonly := false; c_delete_if_exists := true; c_create_enabled := true;
+                 c_create_delay := 30; c_update := UPatch 9 |};
+     s_pre := None; s_locals_err := false; s_name := s_name s; s_lookup := None; s_live := s_live s;
+     s_template := s_template s; s_overlays := OvNone; s_create_overlay := CNone; s_owner_ns := None;
+     s_owner_ref := JMap []; s_match := false; s_post := None; s_return := None |}.
+Example C07f_nonvacuous :
+  reconcile_krm_f ex_die AOk ANotFound =
+    (KRaise, [CGet "widgets" (Some "ns") "w"; CDelete "widgets" (Some "default") "w"]) /\
+  fst (reconcile_krm_f (set_live (ex_scenario false) None) AOk AConflict) =
+    KStop (StopRetry 30 "spec.create(contention)") /\
+  reconcile_krm_f (ex_scenario false) AServerErr AOk =
+    (KStop (StopRetry 30 "load resource"), [CGet "widgets" (Some "ns") "w"]).
+Proof. vm_compute. repeat split; reflexivity. Qed.
+
 Print Assumptions C07_readonly_never_creates_or_patches.
 Print Assumptions C07_readonly_no_mutation.
 Print Assumptions C07_create_disabled_never_creates.
@@ -107,3 +202,16 @@ Print Assumptions C07_absent_cannot_create_waits.
 Print Assumptions C07_precondition_stop_no_calls.
 Print Assumptions C07_function_calls_are_krm_calls.
 Print Assumptions C07_at_most_one_mutation.
+Print Assumptions C07_faultfree_is_a_special_case.
+Print Assumptions C07f_readonly_never_creates_or_patches.
+Print Assumptions C07f_readonly_no_mutation.
+Print Assumptions C07f_create_disabled_never_creates.
+Print Assumptions C07f_never_policy.
+Print Assumptions C07f_patch_policy_never_deletes.
+Print Assumptions C07f_recreate_policy_never_patches.
+Print Assumptions C07f_delete_if_exists_only_deletes.
+Print Assumptions C07f_at_most_one_mutation.
+Print Assumptions C07f_absent_cannot_create_waits.
+Print Assumptions C07f_precondition_stop_no_calls.
+Print Assumptions C07f_function_calls_are_krm_calls.
+Print Assumptions C07f_failed_write_is_not_ok.
